@@ -43,16 +43,16 @@ def convert_to_bool_expression(qlassf: QlassF, form: str):
     if form == "anf":
         return to_anf(combined_expr)
     elif form == "cnf":
-        return to_cnf(combined_expr, simplify=True)
+        return to_cnf(combined_expr, simplify=True, force=True)
     elif form == "dnf":
-        return to_dnf(combined_expr, simplify=True)
+        return to_dnf(combined_expr, simplify=True, force=True)
     elif form == "nnf":
         return to_nnf(combined_expr, simplify=True)
     return combined_expr  # Default case if no specific form is requested
 
 
 def convert_to_dimacs(expr):
-    cnf = to_cnf(expr, simplify=True)
+    cnf = to_cnf(expr, simplify=True, force=True)
     if cnf == sympy.true:
         clauses = []
     elif isinstance(cnf, sympy.And):
@@ -94,7 +94,7 @@ def output_result(result, output_file, output_format, form):
                 "Warning: DIMACS format is only supported for CNF form. Converting to CNF.",
                 file=sys.stderr,
             )
-            result = to_cnf(result, simplify=True)
+            result = to_cnf(result, simplify=True, force=True)
         result = convert_to_dimacs(result)
     if output_file == "-":
         print(result)
